@@ -68,6 +68,7 @@ def swappedE : ResE (Bool × Arg) Arg → ResE (Bool × Arg) Arg
 
 /-- `neutralize_raw` (the swap has been written into the tree before anything can fail) -/
 def neutralizeRawE : Arg → ResE (Bool × Arg) Arg
+  | .neg (.neg v) => swappedE (neutralizeRawE v)
   | .neg (.bin .sub l r) => swappedE (neutralizeBinE .sub r l)
   | .bin .sub (.const c) (.bin .sub l r) =>
     if c = 0 then swappedE (neutralizeBinE .sub r l) else neutralizeBinE .sub (.const c) (.bin .sub l r)
@@ -170,6 +171,11 @@ def simplifyRawE : Arg → ResE (Bool × Arg) Arg
     match v with
     | .bin .sub l r =>
       match neutralizeRawE (.bin .sub r l) with
+      | .ok (_, a) => .ok (true, a)
+      | .err e t => .err e t
+      | .panic => .panic
+    | .neg w =>
+      match neutralizeRawE (.neg (.neg w)) with
       | .ok (_, a) => .ok (true, a)
       | .err e t => .err e t
       | .panic => .panic
